@@ -31,6 +31,8 @@ Plan gen_c05(sk::Rng& r, Tier) {
         else if (c < 38) { op.k = "announce"; op.a = {static_cast<std::int64_t>(r.below(3)), ttl(), static_cast<std::int64_t>(r.below(3))}; }  // announce from the publisher about its chunk (announced ttl, peer)
         else if (c < 46) { op.k = "provider"; op.a = {static_cast<std::int64_t>(r.below(6)), static_cast<std::int64_t>(r.below(4)), r.range(1, 120)}; }  // dht provider registration (chunk, peer, ttl)
         else if (c < 52) { op.k = "replica"; op.a = {static_cast<std::int64_t>(r.below(3))}; }                        // receive_chunk of a publisher chunk
+        // the node refreshes its own provider announcement for a chunk it holds, with a TTL unrelated to the chunk's remaining life
+        else if (c < 57) { op.k = "self_announce"; op.a = {static_cast<std::int64_t>(r.below(6)), r.pick<std::int64_t>({1, mn, 30, 120, mx, 2 * mx + 7})}; }
         else if (c < 62) { op.k = "lookup"; op.a = {static_cast<std::int64_t>(r.below(3)), static_cast<std::int64_t>(r.below(3))}; }   // get_record / fetch_chunk / export of a local chunk
         else if (c < 74) { op.k = "adv"; op.a = {r.pick<std::int64_t>({10, 999, 1000, 1001, 5000, 30000, 120000, 4000000})}; }
         else if (c < 84) { op.k = "adv_to"; op.a = {static_cast<std::int64_t>(r.below(3)), r.pick<std::int64_t>({-1, 0, 1, 500})}; }
@@ -145,6 +147,12 @@ void exec_c05(const Plan& p, Ctx& ctx) {
             ct.address = "10.0.1." + std::to_string(op.at(1)) + ":4000";
             const int ci = static_cast<int>(op.at(0));
             node->dht_.add_contact(ci < 3 ? local_id(ci) : remote_id(ci - 3), ct, seconds(op.at(2)));
+        } else if (op.k == "self_announce") {
+            const int ci = static_cast<int>(op.at(0));
+            const en::ChunkId id = ci < 3 ? local_id(ci) : remote_id(ci - 3);
+            // only for chunks the node holds right now (announcing something it never held is a caller error, not this property)
+            const bool live = ci < 3 ? (locals.count(ci) && now < locals[ci].deadline) : (replica_deadline.count(ci - 3) && now < replica_deadline[ci - 3]);
+            if (live && node->chunk_store_.chunks_.count(en::chunk_id_to_string(id))) { node->announce_chunk(id, seconds(op.at(1))); ctx.boundary("self_announce_of_held_chunk"); }
         } else if (op.k == "lookup") {
             const int i = static_cast<int>(op.at(0));
             auto it = locals.find(i);
@@ -198,7 +206,7 @@ Scenario make_c05() {
     s.real_components = {"Node (tick, store_chunk, ingest_manifest, receive_chunk, handle_announce, audit_ttl)", "ChunkStore", "KademliaTable", "SwarmCoordinator", "Manifest codec"};
     s.stub_components = {"OS clock -> simulated", "entropy -> seeded", "announces delivered through the node's handler entry point, not over a socket"};
     s.assumptions = {"each local chunk id is stored once per run so that 'reported exactly once' is unambiguous"};
-    s.rule = "plan = config + 5..40 ops (store, publisher manifest ingest, announce, provider registration, replica receipt, lookups incl. between deadline and tick, advances incl. exactly to deadlines, ticks); non-trivial = a lookup hit a chunk between its deadline and the next cleanup; distinct = plan hash";
+    s.rule = "plan = config + 5..40 ops (store, publisher manifest ingest, announce, provider registration, replica receipt, the node re-announcing a held chunk with an unrelated TTL, lookups incl. between deadline and tick, advances incl. exactly to deadlines, ticks); non-trivial = a lookup hit a chunk between its deadline and the next cleanup, or the node re-announced a held chunk; distinct = plan hash";
     s.gen = gen_c05; s.exec = exec_c05;
     s.kernel_knobs = [](const Plan&) { sk::Knobs k; k.preempt_per_1024 = 0; return k; };
     s.quick_runs = 30000; s.thorough_runs = 1500000; s.quick_secs = 40; s.thorough_secs = 600;
